@@ -312,12 +312,15 @@ const (
 	oddHandlerNil             // handler of E<n> returns (nil, "", nil)
 	oddOptionalGroup          // E(\d+)(x)? : an unmatched optional group arrives as ""
 	oddNoGroupsDisplay        // stream parser for C<a>T<b> that returns no Groups but a Display text, handler returns a detail text
+	oddGroupsRewritten        // stream parser for C<digits>_<digits> that reports the text without the underscore as Groups[0]
+	oddLeftmostFirst          // regexes whose leftmost-first match is shorter than their longest match: Z(\d+?) and Q(\d|\d\d)
 	oddAlternation            // regex with a top-level alternation ZZ(\d+)|QQ(\d+): either alternative matches only at the operand start
 	oddKinds
 )
 
 var c17OddPrograms = []string{
 	"1", "x", "x + 1", "E5", "E5 + 1", "1 + E5", "[E5, E5]", "xf(E5)", "`{E5}`", "func g(){ E5 }; g()", "y = E5; y", "E5x", "E5x + 1", "E", "Ex", "Z", "ZZ + 1", "Q", "Q!", "1 + Q!", "[Q!]", "Q! + 1", "`{Q!}`", "func g(){ Q! }; g()",
+	"C1_000", "C1_000 + 1", "[C1_000, 2]", "1 + C12_5 * 2", "C1_", "Z12", "Z12 + 1", "[Z1, Z12]", "Q12", "Q12 + 1", "Q1 + Q12", "(Z12)", "Z1 2",
 	"QQ7", "1 + QQ7", "ZZ1 + QQ2", "'QQ7'", "1 // QQ7", "x + 'a QQ7 b'", "`{1} QQ7`", "1 + 'ZZ3' + QQ7", "y = 'QQ7'; y", "xQQ7", "[1, 'QQ7', QQ7]", "1 +\nQQ7", "'ZZ1' // QQ2",
 	"C1T2", "C1T2 + 1", "1 + C1T2", "[C1T2]", "C1T", "C1", "2d6 + E5", "E5 ? 1 : 2", "0 ? E5 : 2", "1 ? 2 : E5", "&q = E5; q + q", "i = 0; while i < 2 { i = i + 1; E5 }", "^stA:E5", "^stA+E5", "E5\n+ 1", "E5; 7", "E5 E5", "E5E5",
 }
@@ -376,6 +379,40 @@ func c17OddRun(c c17Case, res *harn.Result, viol func(sig, what string), newVM f
 			seenGroups = append(seenGroups, append([]string{}, groups...))
 			return ds.NewIntVal(5), "", nil
 		})
+	case oddGroupsRewritten:
+		_ = vm.RegCustomDiceParser(func(ctx *ds.Context, st *ds.CustomDiceStream) (*ds.CustomDiceParseResult, error) {
+			fail := func() (*ds.CustomDiceParseResult, error) {
+				st.ResetAttempt()
+				return &ds.CustomDiceParseResult{Matched: false}, nil
+			}
+			if r, ok := st.Read(); !ok || r != 'C' {
+				return fail()
+			}
+			a, ok := st.ReadDigits()
+			if !ok {
+				return fail()
+			}
+			if r, ok := st.Read(); !ok || r != '_' {
+				return fail()
+			}
+			b, ok := st.ReadDigits()
+			if !ok {
+				return fail()
+			}
+			return &ds.CustomDiceParseResult{Matched: true, Groups: []string{"C" + a + b, a, b}}, nil
+		}, func(ctx *ds.Context, groups []string, payload any) (*ds.VMValue, string, error) {
+			calls++
+			seenGroups = append(seenGroups, append([]string{}, groups...))
+			return ds.NewIntVal(5), "", nil
+		})
+	case oddLeftmostFirst:
+		h := func(ctx *ds.Context, groups []string, payload any) (*ds.VMValue, string, error) {
+			calls++
+			seenGroups = append(seenGroups, append([]string{}, groups...))
+			return ds.NewIntVal(5), "", nil
+		}
+		_ = vm.RegCustomDice(`Z(\d+?)`, h)
+		_ = vm.RegCustomDice(`Q(\d|\d\d)`, h)
 	case oddAlternation:
 		_ = vm.RegCustomDice(`ZZ(\d+)|QQ(\d+)`, func(ctx *ds.Context, groups []string, payload any) (*ds.VMValue, string, error) {
 			calls++
@@ -443,6 +480,35 @@ func c17OddRun(c c17Case, res *harn.Result, viol func(sig, what string), newVM f
 		for _, g := range seenGroups {
 			if len(g) != 3 || g[1] != "5" || (g[2] != "" && g[2] != "x") || g[0] != "E5"+g[2] {
 				viol("C17:groups", fmt.Sprintf("program %q: groups %q for the pattern E(\\d+)(x)?", c.Src, g))
+			}
+		}
+	case oddGroupsRewritten:
+		// what the parser consumed is what the operand consumes, whatever text it reports as Groups[0]
+		if strings.Contains(c.Src, "C1_000") || strings.Contains(c.Src, "C12_5") {
+			ref := c17Eval(newVM(), strings.NewReplacer("C1_000", "     5", "C12_5", "    5").Replace(c.Src))
+			if got.err != ref.err || got.ret != ref.ret || got.rest != ref.rest {
+				viol("C17:operand-value-not-used-like-a-number", fmt.Sprintf("program %q gives (%s, %s, rest %q); with the operand written as the number 5 it gives (%s, %s, rest %q)", c.Src, got.err, got.ret, got.rest, ref.err, ref.ret, ref.rest))
+			}
+			for _, g := range seenGroups {
+				if len(g) != 3 || (g[0] != "C1000" && g[0] != "C125") {
+					viol("C17:groups", fmt.Sprintf("program %q: the parser's groups %q were not handed on unchanged", c.Src, g))
+				}
+			}
+		} else if !same {
+			viol("C17:odd-extension-not-transparent:8", fmt.Sprintf("program %q: %+v vs %+v", c.Src, got, base))
+		}
+	case oddLeftmostFirst:
+		// Go's regexp semantics as compiled by the host (leftmost-first): Z(\d+?) matches one digit, Q(\d|\d\d) one digit
+		for _, g := range seenGroups {
+			if len(g) != 2 || len(g[1]) != 1 || (g[0] != "Z"+g[1] && g[0] != "Q"+g[1]) {
+				viol("C17:groups", fmt.Sprintf("program %q: groups %q are not the leftmost-first match of the registered pattern", c.Src, g))
+			}
+		}
+		if strings.ContainsAny(c.Src, "ZQ") && !strings.Contains(c.Src, "QQ") && !strings.Contains(c.Src, "ZZ") {
+			// Z12 is the operand Z1 followed by the text "2"
+			ref := c17Eval(newVM(), strings.NewReplacer("Z1", "(5)", "Q1", "(5)").Replace(c.Src))
+			if got.err != ref.err || got.ret != ref.ret || got.rest != ref.rest {
+				viol("C17:operand-value-not-used-like-a-number", fmt.Sprintf("program %q gives (%s, %s, rest %q); with each one-digit operand written as (5) it gives (%s, %s, rest %q)", c.Src, got.err, got.ret, got.rest, ref.err, ref.ret, ref.rest))
 			}
 		}
 	case oddAlternation:
